@@ -161,6 +161,23 @@ CLAIMED = {
             'std, sum_err) by normal-form comparison of the radicands; MAD/'
             'biweight/mode/shape parameters not covered',
             TECH),
+    'C07': ('3/C07',
+            'Unmodified SourceCatalog on symbolic data/error/background '
+            '(data NaN-extended), <=1 masked pixel, optional symbolic '
+            'convolved data or detection catalog, for 6 segmentation maps '
+            '(touching, nested in one bounding box, single-pixel, '
+            'edge-hugging, non-consecutive labels, disconnected label): '
+            'segment_flux, segment_fluxerr, area, segment_area, bbox_*, '
+            'min/max values and indices, raw moments, centroid, '
+            'background_sum/mean equal their definitions on the labelled, '
+            'unmasked, finite pixels; fully masked => NaN; renumbering the '
+            'labels changes nothing (solver equality of two symbolic runs). '
+            'A concrete differential family checks the local-background '
+            'relation segment_flux + area*local_background = sum(data).',
+            'negative pixels of the moment image bounded to <=1 (thorough '
+            '2); covariance/shape/kron/fluxfrac properties not covered; row '
+            'reordering is covered by the C08 check',
+            TECH),
 }
 
 NOT_YET = {}
